@@ -287,7 +287,9 @@ def classify(data, harnesses, prop):
                 for c in failed]
             es = errs.get(hid, {}).get("exit_status")
             if r.get("status") == "Success" and not failed:
-                bad_cov = [d for d, s in out["covers"].items() if s != "Satisfied"]
+                # covers whose description starts with "maybe:" are informative only (instance families where
+                # the covered situation cannot occur in some instances)
+                bad_cov = [d for d, s in out["covers"].items() if s != "Satisfied" and not d.strip('"').startswith("maybe:")]
                 if bad_cov:
                     out["verdict"] = "INCONCLUSIVE"
                     out["reason"] = "vacuity witness not satisfied: %s" % bad_cov
